@@ -32,5 +32,5 @@ pub fn default_download_timeout() -> Duration {
 /// Whether the given duration is the default duration that the client should be willing to wait to
 /// start receiving data.
 pub fn is_default_download_timeout(timeout: &Duration) -> bool {
-    timeout.as_secs() == 20
+    *timeout == default_download_timeout()
 }
